@@ -28,7 +28,9 @@ def explore_blocks(project, sub, max_visits):
     No calls are generated for this property. Accesses to (-1024, 1024) end the path."""
     blocks = {b["tid"]: b for b in sub["blocks"]}
     records = []
-    work = [(sub["blocks"][0]["tid"], symexec.State(project), [], 0)]
+    st0 = symexec.State(project)
+    st0.heap = {}
+    work = [(sub["blocks"][0]["tid"], st0, [], 0)]
     n_paths = 0
     while work:
         tid, st, pc, visits = work.pop()
@@ -38,7 +40,7 @@ def explore_blocks(project, sub, max_visits):
             continue
         if n_paths + len(work) > 300:
             raise symexec.PathBudget("path budget")
-        records.append((tid, list(pc), st.copy(), visits))
+        records.append((tid, list(pc), cp(st), visits))
         enc = irsmt.Encoder(st.lookup)
         for d in blk["defs"]:
             if d["k"] == "assign":
@@ -56,12 +58,12 @@ def explore_blocks(project, sub, max_visits):
             n_paths += 1
             if jmps and jmps[0]["k"] == "cbranch":
                 c = enc.enc(jmps[0]["cond"])
-                work.append((jmps[0]["target"], st.copy(), pc + [c != 0], visits + 1))
+                work.append((jmps[0]["target"], cp(st), pc + [c != 0], visits + 1))
             continue
         idx = 0
         if jmps[0]["k"] == "cbranch":
             c = enc.enc(jmps[0]["cond"])
-            work.append((jmps[0]["target"], st.copy(), pc + [c != 0], visits + 1))
+            work.append((jmps[0]["target"], cp(st), pc + [c != 0], visits + 1))
             pc = pc + [c == 0]
             idx = 1
             if len(jmps) == 1:
@@ -83,13 +85,29 @@ def explore_blocks(project, sub, max_visits):
                 elif r["name"] not in PURE_EXTERN["callee_saved"]:
                     st.regs[key] = z3.BitVec("havoc%d_%s_%d" % (k, r["name"], r["size"]), r["size"] * 8)
             st.temps = {}
+            if j.get("target") == "ext_malloc":
+                # the returned pointer is NULL or the address of a fresh object far away from address 0, from the stack and
+                # from every object allocated before (the analysis' no-aliasing assumption for heap objects)
+                ptr = st.regs[("RAX", 8)]
+                far = z3.BitVecVal(1 << 16, 64)
+                others = [z3.BitVecVal(0, 64), z3.BitVec("r0_RSP_8", 64)] + [h for hs in st.heap.values() for h in hs]
+                apart = [z3.And(z3.UGE(ptr - o, far), z3.UGE(o - ptr, far)) for o in others]
+                pc = pc + [z3.Or(ptr == 0, z3.And(*apart))]
+                st.heap = dict(st.heap)
+                st.heap[j["tid"]] = st.heap.get(j["tid"], []) + [ptr]
             work.append((j["ret"], st, pc, visits + 1))
         else:
             n_paths += 1
     return records
 
 
-def gamma(val, data, stack_id, entry):
+def cp(st):
+    c = st.copy()
+    c.heap = {k: list(v) for k, v in st.heap.items()}
+    return c
+
+
+def gamma(val, data, stack_id, entry, heap=None, malloc_sites=()):
     """z3 predicate 'val in gamma(data)' or None if the abstract value does not constrain val (Top / untracked identifiers)."""
     if data["top"]:
         return None
@@ -104,13 +122,18 @@ def gamma(val, data, stack_id, entry):
             base = entry("RSP", 8)
         elif "reg" in i["loc"] and i["tid"] == FN:
             base = entry(i["loc"]["reg"], i["loc"]["size"])
+        elif heap is not None and i["tid"] in malloc_sites and i["loc"].get("reg") == "RAX":
+            # heap object allocated at this call site: any of the pointers returned there on this path
+            for h in heap.get(i["tid"], []):
+                alts.append(RV.member(val - h, rel["offset"]))
+            continue
         else:
             return None  # identifier of an object the reference semantics does not track: no constraint (weaker, never alarming)
         alts.append(RV.member(val - base, rel["offset"]))
     return z3.Or(*alts) if alts else z3.BoolVal(False)
 
 
-def gamma_c(v, data, stack_id, entry):
+def gamma_c(v, data, stack_id, entry, heap_c=None, malloc_sites=()):
     if data["top"]:
         return True
     ok = data["abs"] is not None and RV.member_c(v, data["abs"])
@@ -120,6 +143,10 @@ def gamma_c(v, data, stack_id, entry):
             base = entry("RSP", 8)
         elif "reg" in i["loc"] and i["tid"] == FN:
             base = entry(i["loc"]["reg"], i["loc"]["size"])
+        elif heap_c is not None and i["tid"] in malloc_sites and i["loc"].get("reg") == "RAX":
+            for h in heap_c.get(i["tid"], []):
+                ok = ok or RV.member_c((v - h) & RV.M(64), rel["offset"])
+            continue
         else:
             return True
         ok = ok or RV.member_c((v - base) & RV.M(64), rel["offset"])
@@ -165,6 +192,7 @@ def check_project(inp, out, stats):
             return None, None
         return r == z3.sat, m
 
+    malloc_sites = {j["tid"] for b in sub["blocks"] for j in b["jmps"] if j["k"] == "call" and j.get("target") == "ext_malloc"}
     for (tid, pc, st, visits) in recs:
         node = out["nodes"].get(tid)
         stats["block_visits"] = stats.get("block_visits", 0) + 1
@@ -180,28 +208,35 @@ def check_project(inp, out, stats):
         for reg, data in sorted(node["regs"].items()):
             size = data["size"]
             val = st.lookup(reg, size, False)
-            g = gamma(val, data, node["stack_id"], entry)
+            g = gamma(val, data, node["stack_id"], entry, st.heap, malloc_sites)
             if g is None:
                 continue
+            if any(r["id"]["tid"] in malloc_sites for r in data["rel"]):
+                stats["heap_pointer_checks"] = stats.get("heap_pointer_checks", 0) + 1
             stats["register_checks"] = stats.get("register_checks", 0) + 1
             s, m = q(*(pc + [z3.Not(g)]))
             if s:
-                r = confirm(proj, sub, m, tid, visits, reg, data, node)
+                r = confirm(proj, sub, m, tid, visits, reg, data, node, malloc_sites)
                 if r:
                     return dict(r, what="at the start of %s register %s can hold %#x which is not represented by %s" % (tid, reg, r["value"], json.dumps(data)[:300]), kind="register value not represented")
                 stats["unconfirmed_models"] = stats.get("unconfirmed_models", 0) + 1
     return None
 
 
-def confirm(proj, sub, model, tid, visits, reg, data, node):
+def confirm(proj, sub, model, tid, visits, reg, data, node, malloc_sites=()):
     """Replay the model concretely: is block `tid` entered as the (visits+1)-th block with a value outside gamma?"""
     ms = T.ModelState(model)
     seen = []
+    heap_now = {}
 
     def on_block(t, env):
-        seen.append((t, {r["name"]: env(r["name"], r["size"], False) for r in proj["regs"]}))
+        seen.append((t, {r["name"]: env(r["name"], r["size"], False) for r in proj["regs"]}, {k: list(v) for k, v in heap_now.items()}))
 
-    concrete.run(proj, sub, ms.reg(-1), ms.mem(-1), ms.havoc, ms.oracle, MAX_VISITS, (), on_block=on_block, abort_null=True, pure_extern=PURE_EXTERN)
+    def on_call(k, j, hr):
+        if j.get("target") == "ext_malloc":
+            heap_now.setdefault(j["tid"], []).append(hr("RAX", 8, False) & RV.M(64))
+
+    concrete.run(proj, sub, ms.reg(-1), ms.mem(-1), ms.havoc, ms.oracle, MAX_VISITS, (), on_block=on_block, abort_null=True, pure_extern=dict(PURE_EXTERN, on_call=on_call))
     if len(seen) <= visits or seen[visits][0] != tid:
         return None
     regs = seen[visits][1]
@@ -209,7 +244,7 @@ def confirm(proj, sub, model, tid, visits, reg, data, node):
     if reg is None:
         return {"state": ms.stored, "value": 0, "visits": visits}
     v = regs[reg]
-    if gamma_c(v, data, node["stack_id"], entry):
+    if gamma_c(v, data, node["stack_id"], entry, seen[visits][2], malloc_sites):
         return None
     return {"state": ms.stored, "value": v, "visits": visits, "register": reg}
 
@@ -218,7 +253,7 @@ def run(prop, tier):
     t0 = time.time()
     rng = random.Random(seed() * 2654435761 % (1 << 32) + 13)
     budget_s = float(os.environ.get("VERIF_BUDGET_S", "300" if tier == "quick" else "3000"))
-    n_random = int(os.environ.get("VERIF_PROGRAMS", "1200" if tier == "quick" else "40000"))
+    n_random = int(os.environ.get("VERIF_PROGRAMS", "3000" if tier == "quick" else "40000"))
     drv = T.build_driver()
     if drv is None:
         return 2
@@ -268,7 +303,7 @@ def run(prop, tier):
     coverage = {
         "programs": n_prog, "disagreements_checked": n_disagree, "samples": samples or [{}],
         "programs_without_fixpoint_skipped": n_unstable, "programs_skipped_path_budget": n_skipped,
-        "block_visits_checked": stats.get("block_visits", 0), "register_membership_queries": stats.get("register_checks", 0),
+        "block_visits_checked": stats.get("block_visits", 0), "register_membership_queries": stats.get("register_checks", 0), "of_which_heap_pointer_values": stats.get("heap_pointer_checks", 0),
         "queries_discharged": stats.get("queries", 0), "solver_s": round(stats.get("solver_s", 0.0), 1), "queries_undecided_solver_timeout": stats.get("undecided", 0),
         "models_not_confirmed_concretely": stats.get("unconfirmed_models", 0),
         "functions_encoded": ["function_signature::compute_function_signatures + pointer_inference::run (real code, run natively) on the basic-normalized project",
@@ -278,7 +313,7 @@ def run(prop, tier):
     }
     assumptions = [
         "gamma(value) = top flag, or absolute strided interval, or entry value of the identifier + offset interval; parameter identifiers = register values at function entry, stack identifier = stack pointer at entry; "
-        "a value mentioning any other identifier (heap, nested, global) is treated as unconstrained (makes the check weaker, never alarming)",
+        "heap identifier of a malloc call site = any pointer returned by that call on the path (NULL, or a fresh object at least 2^16 bytes away from address 0, the stack and earlier objects); a value mentioning any other identifier (nested, global) is treated as unconstrained (makes the check weaker, never alarming)",
         "accesses to addresses in (-1024, 1024) abort the run; the stack pointer is 16-byte aligned at entry and at least 2^16 away from address 0 (stack slots do not alias the absolute addresses used); 1-byte registers hold 0/1",
         "memory is only accessed through the stack/frame pointer at constant offsets, at constant absolute addresses, or through pointer parameters (registers the function never overwrites) at small constant offsets; "
         "the objects pointer parameters point to are at least 2^16 bytes away from address 0, from the entry stack pointer and from each other (the analysis' no-aliasing assumption for parameter objects)",
